@@ -61,6 +61,34 @@ theorem c16_publishes_only_own_uri (s : Srv) (uri : Text) (pkgs : List PkgInfo) 
       · simp at hm; exact Or.inr ⟨_, _, hm⟩
       · split at hm <;> (simp at hm; exact Or.inl ⟨_, hm⟩)
 
+/-! ### the regenerated tables agree with each other (re-checked against the source on every run) -/
+
+/-- every ecosystem a document can be classified as is a registry type the cache, the
+    resolvers and the configuration know by the same string: `RegistryType::as_str` and
+    `from_str` are inverse tables, every detectable kind is in them, and every kind has exactly
+    one documented `registries.<key>.enabled` switch (and no switch is for an unknown kind) -/
+theorem c16_tables_consistent :
+    Generated.registryTypes.map (fun p => (p.2, p.1)) = Generated.registryFromStr ∧
+    (∀ e ∈ Generated.detectSuffixTable, e.2 ∈ Generated.registryFromStr.map (·.1)) ∧
+    Generated.ghaRegistry ∈ Generated.registryFromStr.map (·.1) ∧
+    (∀ r ∈ Generated.registryFromStr.map (·.1),
+        (Generated.configRegistryKeys.filter (·.2 == r)).length = 1) ∧
+    (∀ c ∈ Generated.configRegistryKeys, c.2 ∈ Generated.registryFromStr.map (·.1)) ∧
+    (∀ r ∈ Generated.registryFromStr.map (·.1),
+        r = Generated.ghaRegistry ∨ r ∈ Generated.detectSuffixTable.map (·.2)) := by
+  decide
+
+/-- hence a classified document always belongs to a registry with its own switch -/
+theorem c16_detected_has_switch (uri : Text) (k : String) (h : detect uri = some k) :
+    (Generated.configRegistryKeys.filter (·.2 == k)).length = 1 := by
+  have hmem : k ∈ Generated.registryFromStr.map (·.1) := by
+    unfold detect at h
+    split at h
+    · cases h; exact c16_tables_consistent.2.2.1
+    · obtain ⟨sfx, hm, _⟩ := firstSuffix_some h
+      exact c16_tables_consistent.2.1 (sfx, k) hm
+  exact c16_tables_consistent.2.2.2.1 k hmem
+
 /-! ### non-vacuity -/
 example : ¬ Supported "file:///p/mypackage.json".toList := (c16_none_iff _).mp (by decide)
 example : Kind "file:///p/Cargo.toml".toList "crates_io" := (c16_iff _ _).mp (by decide)
